@@ -10,7 +10,7 @@ C={
   "Persistence model: fdatasync/fsync is a barrier, 512-byte sectors persist independently afterwards; not a model of a specific file system; NoSync and init-crash excluded as documented."),
 "C05":("model_checking","exhaustive enumeration of cursor call sequences over all deletion subsets of fixed bucket shapes on the real code, sorted-list oracle","DESIGN.md 4/C05",
   "Every sequence of 3 (quick) / 4 (thorough) cursor calls from First/Last/Next/Prev/Seek(every key and gap) on every bucket shape x every subset of keys deleted (and every single gap put) in the same write tx, and in read transactions, equals a sorted list with a position; every call returns (a hang kills the worker and is reported).",
-  "Shapes are fixed (6 shapes x 2 page sizes); cursor use after mutation without repositioning is excluded as documented."),
+  "Shapes are fixed (6 shapes x 2 page sizes, tree depth of each asserted when built; the three-level one has 12 keys = 4096 deletion subsets); a per-call watchdog in the worker decides about hangs; cursor use after mutation without repositioning is excluded as documented."),
 "C08":("fault_enumeration","explicit-state BFS over API programs with one injected failure at every I/O call index of every commit, run under the controlled scheduler for deadlock detection","DESIGN.md 4/C08",
   "For every explored state with an open write tx the commit is re-executed once per I/O call and failure shape; afterwards error returned, pre-state (or, after a complete meta write, the post-state in memory and on disk alike) visible to fresh and held readers, accounting exact, no page of a visible version allocatable, follow-up transactions and reopen work, no deadlock. Known finding F6 reported as such.",
   "One failure per execution; failures are injected through the tag-guarded I/O hook (write, fdatasync, fsync, truncate, mmap)."),
@@ -22,21 +22,21 @@ C={
   "Caller contract as alphabet guard; the 'randomly beyond the bound' half of the quantifier is not addressed."),
 "C13":("model_checking","exhaustive enumeration of option assignments per open for a fixed history with two reopen points, executed on the real code, reference-model + decoder oracle","DESIGN.md 4/C13",
   "Every assignment of 8 options at the first reopen x the listed assignments at creation and second reopen, with read-only opens (preload on/off) in between: all API results and dumps equal the model, the loaded free list equals the decoder's unreachable set after every open, accounting exact.",
-  "One fixed history (the option space is what is enumerated); Mlock only if the sandbox permits it (recorded)."),
+  "One fixed history in quick, two in thorough (the option space is what is enumerated); a failing transaction whose failed call is the remap is followed by a reopen (documented unmapped state); Mlock only if the sandbox permits it, kernel refusals are re-run without it and counted."),
 "C14":("model_checking","stateless DFS over schedules of WriteTo against a committing writer (real code, controlled scheduler) + explicit-state BFS over backup/commit event orders","DESIGN.md 4/C14",
-  "Every schedule (bounded preemptions) of a chunked WriteTo racing two page-recycling commits, and every order of reader/writer/backup events within the bound: bytes = n = Size(), copy equals the reader's version, both metas valid with meta 0 winning, accounting/Tx.Check clean, copy opens and accepts a commit.",
+  "Every schedule (bounded preemptions) of a chunked WriteTo racing two page-recycling commits, and every order of reader/writer/backup events within the bound, incl. every single I/O failure of every commit with a backup reader held across: bytes = n = Size(), copy equals the reader's version, both metas valid with meta 0 winning, accounting/Tx.Check clean, copy opens and accepts a commit.",
   "The writer given to WriteTo yields at every Write call."),
 "C17":("model_checking","exhaustive enumeration of open/close event sequences (in-process and across helper processes) against a lock table; of read-only API programs and CLI commands; of stores into all handed-out slices under the real PROT_READ mapping","DESIGN.md 4/C17",
-  "Lock table over all event sequences up to the bound with 3 handles (one process / three processes) plus blocking opens under the controlled scheduler; every read-only program of the bound and every CLI inspection command leaves length and SHA-256 unchanged and issues no write; every store into handed-out memory faults or hits a private copy.",
+  "Lock table over all event sequences up to the bound with 3 handles (one process / three processes) plus blocking opens under the controlled scheduler, failing opens followed by opens of the repaired file; every read-only program of the bound and every CLI inspection command - on files with and without a persisted freelist, alone and next to an open read-only handle - leaves length and SHA-256 unchanged, opens read-only and issues no write/sync/truncate (I/O tap); every store into handed-out memory faults or hits a private copy.",
   "flock/mmap semantics are the kernel's."),
 "C18":("model_checking","exhaustive enumeration of MaxSize x AllocSize x InitialMmapSize x page size x workload configurations on the real code, file length checked after every operation","DESIGN.md 4/C18",
-  "Every limit on a 2048- (quick) / 512-byte (thorough) grid from 4 pages to 96 KiB plus MiB-scale points, 3 alloc sizes, 4 initial map sizes, 2 page sizes, 3 workloads, limit from the start or imposed later: length never exceeds max(limit, length at open); refused transactions leave content, accounting and length unchanged; reopen and a small transaction work.",
+  "Every limit on a 2048- (quick) / 512-byte (thorough) grid from 4 pages to 96 KiB plus MiB-scale points, 3 alloc sizes, 4 initial map sizes, 2 page sizes, 6 workloads (incl. creeping growth that puts a single-page allocation on every page id), limit from the start or imposed later: length never exceeds max(limit, length at open); refused transactions leave content, accounting and length unchanged; reopen and a small transaction work.",
   "Compared op by op with the reference model."),
 "C15":("model_checking","explicit-state BFS over source states x exhaustive enumeration of transaction-size limits, real Compact and CLI, reference-model oracle","DESIGN.md 4/C15",
   "Every source state of the exploration and every seed, compacted for every limit (exhaustive when small, else every limit that changes the split pattern) through the library and the CLI: destination equals the model incl. sequences, passes Tx.Check/accounting, source unchanged.",
   "CLI run in-process via command.NewRootCommand()."),
 "C19":("fault_enumeration","exhaustive enumeration of single structural corruptions (decoder-guided byte surgery) of consistent files; Tx.Check under both backends and the CLI must report","DESIGN.md 4/C19",
-  "Every single corruption of each listed class at every eligible place of each seed state (freelist persisted by either backend or not) must be reported by Tx.Check (both backends) and by `bbolt check` (non-zero exit, in-process and binary); unmutated files must be clean.",
+  "Every single corruption of each listed class (incl. out-of-order freelists and overflow counts that swallow the next page) at every eligible place of each seed state (freelist persisted by either backend or not) must be reported by Tx.Check (both backends) and by `bbolt check` (non-zero exit, in-process and binary); unmutated files must be clean.",
   "A mutation counts only if the independent decoder sees the intended class; cycles excluded; not-openable files count for the CLI only."),
 "C20":("model_checking","explicit-state BFS over API programs; after every commit the real surgery commands are run on a copy and judged by reference model + independent decoder","DESIGN.md 4/C20",
   "After every commit of every explored program: freelist abandon, abandon+rebuild and revert-meta-page produce exactly the promised file (content, free set = unreachable set, previous version), pass Tx.Check/accounting, accept a commit; sources stay byte-identical, only the output file is created.",
@@ -63,7 +63,7 @@ C={
   "Every order of reader open/close, writer begin/commit/rollback and reopen within the bound; at each writer begin no allocatable page belongs to a visible version and nothing stays pending without readers; after commits only that commit's releases are withheld.",
   "Finite horizon only for the no-unbounded-growth clause; page sets from boltfmt; freelist state through the tag-guarded accessor."),
 "C12":("model_checking","explicit-state BFS over API programs; every produced file decoded by an independent version-2 reader and compared with model and API","DESIGN.md 4/C12",
-  "Every file at every transaction boundary of the explorations (all configurations/page sizes) is decoded by a reader written only from the published layout and must equal the reference model and the API dump; meta slots, parity, checksum, flags checked.",
+  "Every file at every transaction boundary of the explorations (all configurations/page sizes) is decoded by a reader written only from the published layout and must equal the reference model and the API dump; meta slots, parity, checksum, flags checked; backups and files after failed commits are decoded too; a golden corpus written by the pinned build must still open with its recorded content; hand-encoded version-2 files with freelists around the 0xFFFF count boundary must open with exactly the listed ids free and decode again after a commit.",
   "Trusted: boltfmt's reading of the version-2 layout."),
 }
 checks=[]
